@@ -209,6 +209,13 @@ func c19StreamsT(seed int64, thorough bool) []*Stream {
 			lists[3] = append(lists[3], Packetize(PESUnit(0x101, 0xc0, pesPayload(26, 40, seed), 6, true), nil, &ccs[3], false)...)
 		}
 		ss = append(ss, BuildStream("mixed-15", lists, roundRobin(lists), nil))
+		if thorough { // 20 packets: 2^20 skip vectors - the PAT and the PMT repeated with a new version, one more video unit over two packets
+			l2 := append([][]*ref.Pkt{}, lists...)
+			l2[0] = append(append([]*ref.Pkt{}, l2[0]...), Packetize(PSIUnit(0, 0, [][]byte{SecPAT(modelPAT(1, 0x1000, 2, 0x1001), ref.SecHdr{CNI: true, Version: 1})}, nil), nil, &ccs[0], true)...)
+			l2[1] = append(append([]*ref.Pkt{}, l2[1]...), Packetize(PSIUnit(0x1000, 0, [][]byte{SecPMT(modelPMT(1, 0x100, 3), ref.SecHdr{CNI: true, Version: 1})}, nil), nil, &ccs[1], true)...)
+			l2[2] = append(append([]*ref.Pkt{}, l2[2]...), Packetize(PESUnit(0x100, 0xe0, pesPayload(27, 220, seed), 4, false), nil, &ccs[2], false)...)
+			ss = append(ss, BuildStream("mixed-long", l2, roundRobin(l2), nil))
+		}
 	}
 	return ss
 }
@@ -219,7 +226,7 @@ func checkC19(c *mc.Ctx) {
 	c.Ev.Assumptions = append(c.Ev.Assumptions, "per-packet decisions are implemented by a call counter inside the predicate (the predicate is consulted once per packet in stream order - itself checked)")
 	for _, st := range append(c19StreamsT(c.Seed, c.Thorough()), IdenticalRunsStream(c.Seed)) {
 		n := len(st.Pkts)
-		if n > 16 {
+		if n > 16 && !(c.Thorough() && n <= 20) {
 			continue
 		}
 		var refPk []*ref.Pkt
@@ -315,6 +322,11 @@ func checkC19(c *mc.Ctx) {
 		}
 		if st.Name != "identical-runs" { // which duplicate reaches a unit is C06's subject
 			c19Parsers(c, st, refPk)
+			if c.Thorough() {
+				c19Product(c, st, 16)
+			} else {
+				c19Product(c, st, 11)
+			}
 		}
 	}
 	// a stream that ends in the middle of units: a PMT and a PAT section whose last packet never comes, a
@@ -347,7 +359,7 @@ func checkC19(c *mc.Ctx) {
 		}
 		c19Parsers(c, st, refPk)
 	}
-	c.Ev.Require("mixed-skip-vector", "structured-predicate", "parser-observer", "parser-replacer", "parser-replacer-returns-nothing", "parser-identity-replacer", "parser-constant-slice-replacer", "parser-failing-on-non-pat-unit")
+	c.Ev.Require("mixed-skip-vector", "skip-vector-with-parser", "structured-predicate", "parser-observer", "parser-replacer", "parser-replacer-returns-nothing", "parser-identity-replacer", "parser-constant-slice-replacer", "parser-failing-on-non-pat-unit")
 }
 
 // IdenticalRunsStream carries runs of byte-identical packets (null packets with the same undefined
